@@ -252,8 +252,7 @@ def runOps (fields : List String) : String × String :=
       let ms := metricsTrace m ops
       let canonOK := (fobs.zip ms).all fun (o, mm) => (positionsOf o).all (Spec.isCanon mm t)
       let r3 := if canonOK then [] else
-        [(if metricsAfterScan ops then "C03: F11-metrics-changed-after-scanning " else "C03: ") ++
-          "a reported position is not canonical"]
+        ["C03: " ++ "a reported position is not canonical"]
       -- C04 (tiling, seen through histories): with no filter installed, a plain `next` delivers the
       -- token that starts exactly at the cursor (nothing can be skipped)
       let tilingOK :=
